@@ -35,6 +35,7 @@ class HarnessError(Exception):
 
 
 _CUR = None
+_SIMP = {}
 
 
 def E():
@@ -321,9 +322,14 @@ class Engine:
         return r == z3.sat
 
     def branch(self, cond):
-        cond = z3.simplify(cond)
-        if z3.is_true(cond): return True
-        if z3.is_false(cond): return False
+        # z3 hash-conses terms: structurally equal conditions of different paths share an id; cache their simplification (entries keep the term alive, so ids stay unique)
+        cid = cond.get_id()
+        hit = _SIMP.get(cid)
+        if hit is None:
+            sc = z3.simplify(cond)
+            hit = _SIMP[cid] = (cond, sc, True if z3.is_true(sc) else False if z3.is_false(sc) else None)
+        if hit[2] is not None: return hit[2]
+        cond = hit[1]
         if self.pos < len(self.prefix):
             d = bool(self.prefix[self.pos])
         else:
@@ -477,13 +483,15 @@ class Engine:
                     self.exhausted = False; break
         return out
 
-    def expand(self, fn, want):
+    def expand(self, fn, want, max_serial=12):
         """breadth-first expansion until >= want open prefixes (or tree exhausted); returns (open_prefixes, violations)"""
         self.work = [[]]
         viol = []
         from collections import deque
         q = deque([[]])
-        while q and len(q) < want:
+        nrun = 0
+        while q and len(q) < want and nrun < max_serial:
+            nrun += 1
             prefix = q.popleft()
             self.work = []
             kind, payload = self.run_path(fn, prefix)
